@@ -314,8 +314,11 @@ impl<I, P, H> Store<I, P, H> {
     pub fn clear(&mut self) {
         self.heap.clear();
         self.qp.clear();
-        self.map.clear();
+        // reset the size before dropping the elements: if the `Drop` of an
+        // item or priority panics, the store must not be left with a stale
+        // length (the unchecked accesses trust it)
         self.size = 0;
+        self.map.clear();
     }
 
     /// Swap two elements keeping a consistent state.
